@@ -350,6 +350,13 @@ class Model:
         # _yatiml_defaults (own or inherited): the constructor turns None
         # into that value, the documented use of the feature
         if any(x.get('defaults_override') for x in self.spec['classes']):
+            # what the constructor was handed for those parameters, before
+            # it converts (a caller that fills in the override itself for an
+            # omitted parameter is told apart from one that leaves it out)
+            L.append('        object.__setattr__(self, "_v_received", {%s})'
+                     % ', '.join('%r: %s' % (p['name'], p['name'])
+                                 for p in params
+                                 if p.get('default', 0) is None))
             for p in params:
                 if p.get('default', 0) is None:
                     # looked up on the object's own class: subclasses that
@@ -571,6 +578,20 @@ def apply_recognize(model, rule, node):
 def apply_season(model, name, cls, op, node):
     k = op[0]
     if k == 'record':
+        # a hook that only looks: every documented query helper with every
+        # documented type argument (read-only; whatever they raise besides
+        # SeasoningError is theirs to answer for)
+        if node.is_mapping():
+            for kn, _ in list(node.yaml_node.value):
+                if isinstance(kn, yaml.ScalarNode) and \
+                        kn.tag == 'tag:yaml.org,2002:str':
+                    node.has_attribute(kn.value)
+                    for t in (str, int, float, bool, None, list, dict):
+                        node.has_attribute_type(kn.value, t)
+        else:
+            for t in (str, int, float, bool, None):
+                node.is_scalar(t)
+            node.is_sequence()
         return
     if k == 'dashes_to_unders':
         if node.is_mapping():
